@@ -559,3 +559,28 @@ pub fn dominant(monos: &[Vec<u8>], order: &[usize]) -> usize {
     }
     best
 }
+
+/// product of the Cholesky pivots (textbook recursion, written independently of momtrop)
+pub fn cholesky_pivot_product<T: Scalar>(m: &[Vec<T>]) -> T {
+    let n = m.len();
+    let zero = T::lit(0.0);
+    let mut q = vec![vec![zero; n]; n];
+    let mut prod = T::lit(1.0);
+    for i in 0..n {
+        let mut d = m[i][i];
+        for j in 0..i {
+            d = d - q[i][j] * q[i][j];
+        }
+        let piv = momtrop::float::MomTropFloat::sqrt(&d);
+        q[i][i] = piv;
+        prod = prod * piv;
+        for j in i + 1..n {
+            let mut e = m[i][j];
+            for k in 0..i {
+                e = e - q[i][k] * q[j][k];
+            }
+            q[j][i] = e / piv;
+        }
+    }
+    prod
+}
